@@ -27,7 +27,7 @@ func runC21(c *ev.Ctx) {
 	c.Assumptions = []string{"thresholds are non-negative durations (a 'time in the past' threshold)", "elapsed time is the exact difference of the two instants, not time.Duration's saturated value"}
 	maxD := big.NewInt(math.MaxInt64)
 	ths := []time.Duration{0, 1, time.Second, time.Hour, 100 * 365 * 24 * time.Hour, math.MaxInt64 - 1, math.MaxInt64}
-	nows := []time.Time{time.Unix(1700000000, 123456789), time.Unix(0, 0), time.Unix(4102444800, 999999999)}
+	nows := []time.Time{time.Unix(1700000000, 123456789), time.Unix(0, 0), time.Unix(4102444800, 999999999), {}, time.Time{}.Add(30 * time.Minute), time.Time{}.Add(1)}
 	year := int64(365 * 24 * 3600)
 	cands := func(now time.Time, th time.Duration) []time.Time {
 		out := []time.Time{{}, time.Unix(0, 0), now, now.Add(-1), now.Add(1)}
